@@ -262,7 +262,7 @@ func (fc *FnCtx) zeroElems(st *State, s Val) {
 	}
 	base, _ := fc.addrBase(a)
 	walkVal(zeroVal(et), "", func(suffix, sort, term string, t types.Type) {
-		l := loc{name: base + suffix, idx: []string{"", ""}, sort: sort}
+		l := loc{name: lname(base, suffix), idx: []string{"", ""}, sort: sort}
 		cur := fc.heapTerm(st, l.name, l.arraySort())
 		inner := "((as const (Array Int " + sort + ")) " + term + ")"
 		st.heap[l.name] = fc.nameTerm("hz", l.arraySort(), tStore(cur, s.Arr, inner))
@@ -282,7 +282,7 @@ func (fc *FnCtx) fieldAddr(fr *Frame, st *State, reach string, x Val, field int,
 	a.T = ft
 	switch x.A.Kind {
 	case AObj:
-		if len(x.A.Path) == 0 && x.A.Idx == "" {
+		if len(x.A.Path) == 0 && x.A.Idx == "" && !fc.nonNil[x.A.Base] {
 			fc.oblige(fr, "nil", text, reach, tNot(tEq(x.A.Base, "0")), false, nil)
 		}
 	case AOpaque:
@@ -314,21 +314,38 @@ func (fc *FnCtx) indexAddr(fr *Frame, st *State, reach string, t *ssa.IndexAddr)
 			}
 			return Val{K: KAddr, T: t.Type(), A: &Addr{Kind: AElem, Base: x.A.Base, Idx: i, ElemT: et, T: et}}
 		case AObj, AGlobal:
-			if x.A.Idx != "" {
-				unsup("nested arrays")
-			}
-			if x.A.Kind == AObj && len(x.A.Path) == 0 {
-				unsup("pointer to bare array object")
-			}
-			a := *x.A
-			a.Idx = i
-			a.IdxAt = len(a.Path)
-			a.T = et
-			return Val{K: KAddr, T: t.Type(), A: &a}
+			return Val{K: KAddr, T: t.Type(), A: &Addr{Kind: AElem, Base: fc.arrayFieldID(st, x.A), Idx: i, ElemT: et, T: et}}
 		}
 	}
 	unsup("IndexAddr on %T kind %d", t.X.Type(), x.K)
 	return Val{}
+}
+
+// arrayFieldID: the backing-array id of an array-typed field (or global). It
+// is an injective function of the owning object, and is allocated.
+func (fc *FnCtx) arrayFieldID(st *State, a *Addr) string {
+	if a.Idx != "" {
+		unsup("nested arrays")
+	}
+	var name string
+	var id string
+	switch a.Kind {
+	case AObj:
+		p, _ := pathName(a.Root, a.Path)
+		name = sanitize("afield$" + typeName(a.Root) + "$" + p)
+		fc.sc.declareFun(name, []string{"Int"}, "Int")
+		fc.sc.declareFun(name+"_inv", []string{"Int"}, "Int")
+		id = sx(name, a.Base)
+		fc.sc.assume(tAnd(sx(">", id, "0"), tEq(sx(name+"_inv", id), a.Base), tSel(fc.alloc(st), id)))
+	case AGlobal:
+		p, _ := pathName(a.Root, a.Path)
+		id = sanitize("garr$" + a.Global.Pkg.Pkg.Name() + "." + a.Global.Name() + "$" + p)
+		fc.sc.declare(id, "Int")
+		fc.sc.assume(tAnd(sx(">", id, "0"), tSel(fc.alloc(st), id)))
+	default:
+		unsup("array inside kind %d", a.Kind)
+	}
+	return id
 }
 
 func (fc *FnCtx) indexVal(fr *Frame, st *State, reach string, t *ssa.Index) Val {
@@ -350,7 +367,7 @@ func (fc *FnCtx) unop(fr *Frame, st *State, reach string, t *ssa.UnOp) Val {
 		if x.K != KAddr {
 			unsup("load from non-address")
 		}
-		if x.A.Kind == AObj && len(x.A.Path) == 0 && x.A.Idx == "" {
+		if x.A.Kind == AObj && len(x.A.Path) == 0 && x.A.Idx == "" && !fc.nonNil[x.A.Base] {
 			fc.oblige(fr, "nil", fc.exprAt(fr, t.Pos(), isStar), reach, tNot(tEq(x.A.Base, "0")), false, nil)
 		}
 		fc.guardedAccess(fr, st, reach, x.A, false)
@@ -626,11 +643,8 @@ func (fc *FnCtx) sliceOp(fr *Frame, st *State, reach string, t *ssa.Slice) Val {
 			if x.A.Idx == "" {
 				return Val{K: KSlice, T: t.Type(), Arr: x.A.Base, Off: lo, Len: tSub(hi, lo), Cap: tSub(mx, lo)}
 			}
-		case AObj:
-			// array field of an object: its storage is H$...[ref][i]; expose it as a
-			// slice over a per-object pseudo array id. Aliasing between the
-			// slice view and the field view is not tracked.
-			unsup("slicing an array field (%s)", text)
+		case AObj, AGlobal:
+			return Val{K: KSlice, T: t.Type(), Arr: fc.arrayFieldID(st, x.A), Off: lo, Len: tSub(hi, lo), Cap: tSub(mx, lo)}
 		}
 	}
 	unsup("slice of kind %d", x.K)
@@ -732,11 +746,7 @@ func (fc *FnCtx) unbox(st *State, payload string, t types.Type) Val {
 	case KBool:
 		return boolVal(tEq(payload, "1"))
 	case KAddr:
-		pt := t.Underlying().(*types.Pointer)
-		if structOf(pt.Elem()) != nil {
-			return Val{K: KAddr, T: t, A: &Addr{Kind: AObj, Base: payload, Root: pt.Elem(), T: pt.Elem()}}
-		}
-		return Val{K: KAddr, T: t, A: &Addr{Kind: AOpaque, Base: payload, T: pt.Elem()}}
+		return buildVal(t, "", func(string, string, types.Type) string { return payload })
 	case KStruct:
 		return fc.load(st, &Addr{Kind: AObj, Base: payload, Root: t, T: t})
 	case KStr:
@@ -758,6 +768,13 @@ func (fc *FnCtx) typeAssert(fr *Frame, st *State, reach string, t *ssa.TypeAsser
 		v = fc.unbox(st, x.S, t.AssertedType)
 		if v.K == KInt {
 			fc.sc.assume(tImp(ok, rangeTerm(v.T, v.S)))
+		}
+	}
+	if fc.poolVals[x.Tag] {
+		fc.assumption("T3 sync.Pool discipline: Get() yields a non-nil value of the type asserted at the call site")
+		fc.sc.assume(ok)
+		if v.K == KAddr {
+			fc.sc.assume(tAnd(tNot(tEq(v.A.Base, "0")), tSel(fc.alloc(st), v.A.Base)))
 		}
 	}
 	if t.CommaOk {
